@@ -45,7 +45,7 @@ type E struct {
 	X, Y  *E
 	Field string
 	Args  []*E
-	Pkg   bool // a call of a package-level function (whatever the helpers of the group are called)
+	Pkg   bool // a call of a package-level function (whatever the helpers of the group are called); on an identifier: it names a package-level function where it is written
 }
 
 func ident(n string) *E            { return &E{K: "ident", Name: n} }
@@ -199,6 +199,7 @@ type fileCase struct {
 	pkgBefore  bool // a helper calls a package-level function; a LATER helper of the same group carries that function's name
 	higher     bool // a helper takes another helper as an argument and calls it
 	higherName bool // ... through a parameter spelled like a helper of the group
+	pkgArg     bool // a helper hands a package-level function to a higher-order helper; a LATER helper of the group carries that function's name
 }
 
 // package-level constants; several are named like helper parameters
@@ -247,7 +248,7 @@ func constsSrc() string {
 			fmt.Fprintf(&sb, "\t%s = %d\n", c.name, c.i)
 		}
 	}
-	sb.WriteString(")\n\nvar sv = \"int64\"\nvar nv = 8\n\nfunc pf(n int) bool { return n > 0 }\nfunc f(n int) bool { return n > 1 }\nfunc isBig(ctx *dsl.VarFilterContext) bool { return ctx.SizeOf(ctx.Type) >= 8 }\n")
+	sb.WriteString(")\n\nvar sv = \"int64\"\nvar nv = 8\n\nvar pa = func(v dsl.Var) bool { return v.Pure }\nvar pb = func(v dsl.Var) bool { return v.Const }\n\nfunc pf(n int) bool { return n > 0 }\nfunc f(n int) bool { return n > 1 }\nfunc isBig(ctx *dsl.VarFilterContext) bool { return ctx.SizeOf(ctx.Type) >= 8 }\n")
 	return sb.String()
 }
 
@@ -458,7 +459,7 @@ func inlineAll(e *E, hs map[string]*helper) *E {
 	if e == nil {
 		return nil
 	}
-	if e.K == "call" && e.X.K == "ident" && !e.Pkg {
+	if e.K == "call" && e.X.K == "ident" && !e.Pkg && !e.X.Pkg {
 		if h := hs[e.X.Name]; h != nil && len(h.params) == len(e.Args) {
 			// parameters first, nested calls afterwards: the names free in a nested helper's body (the matcher) are
 			// not captured by this helper's parameters
@@ -951,6 +952,33 @@ func genFileCase(rng *rand.Rand) fileCase {
 			if rng.Intn(3) == 0 { // the helper whose name the parameter may carry is defined after the higher-order helper
 				defs = []*helper{pb, ck, pa}
 			}
+			// a helper that hands pa / pb on to the higher-order helper; where it is written the name may still mean the
+			// package-level function variable (the helper of the group is defined later): in Go's reading the group then calls
+			// that package-level function -- not a loadable rule
+			var hk *helper
+			if rng.Intn(2) == 0 {
+				q := []string{"pa", "pb"}[rng.Intn(2)]
+				qe := ident(q)
+				defs = []*helper{pb, ck, nil, pa}
+				if rng.Intn(4) == 0 {
+					defs = []*helper{pa, ck, nil, pb}
+				}
+				if defs[3].name == q {
+					qe.Pkg = true
+					fc.pkgArg = true
+					outsideModel = true // the model looks helpers up by name
+				}
+				hk = &helper{name: "hk", params: []param{{"u", "dsl.Var"}}}
+				hkArgs := []*E{qe, ident("u")}
+				if ck.params[0].typ == "dsl.Var" {
+					hkArgs[0], hkArgs[1] = hkArgs[1], hkArgs[0]
+				}
+				hk.body = call(ident("ck"), hkArgs...)
+				if rng.Intn(3) == 0 {
+					hk.body = bin("||", sel(ident("u"), "Const"), hk.body)
+				}
+				defs[2] = hk
+			}
 			for _, h := range defs {
 				hmap[h.name] = h
 				g.stmts = append(g.stmts, gstmt{def: h})
@@ -963,6 +991,9 @@ func genFileCase(rng *rand.Rand) fileCase {
 			// both one-variable helpers are used (Go rejects unused local functions)
 			hoWhere = bin([]string{"&&", "||"}[rng.Intn(2)], call(ident("ck"), ckArgs...),
 				bin("||", call(ident("pa"), sc.mvar("y")), call(ident("pb"), sc.mvar("y"))))
+			if hk != nil {
+				hoWhere = bin([]string{"&&", "||"}[rng.Intn(2)], call(ident("hk"), sc.mvar("x")), hoWhere)
+			}
 			fc.higher = true
 			if pname != "pred" {
 				fc.higherName = true
@@ -1204,6 +1235,7 @@ type Case struct {
 	TwinRej bool   `json:"twin_rejected"`   // fixed catalogue: Go's reading of the group is itself not a loadable rule
 	Higher  bool   `json:"higher_order"`    // a helper takes another helper as an argument and calls it
 	HigherN bool   `json:"higher_named"`    // ... through a parameter spelled like a helper of the group
+	PkgArg  bool   `json:"pkg_arg"`         // a helper hands a package-level function to a higher-order helper; a later helper of the group carries its name
 	GConst  bool   `json:"group_consts"`    // const case: several groups declare equal-named constants with other values
 	Outside bool   `json:"outside_model"`   // uses Type.IdenticalTo / Filter, whose argument the Coq skeleton does not model
 	Fixed   string `json:"fixed,omitempty"` // a case of the fixed catalogue (twins.go)
@@ -1291,7 +1323,7 @@ func main() {
 		c.Groups, c.Same, c.PkgFunc, c.Unhyg, c.Nested, c.PNamed, c.Octal = len(fc.groups), fc.sameName, fc.pkgFunc, fc.unhyg, fc.nested, fc.paramNamed, fc.octal
 		c.Twice = fc.twice
 		c.Blank, c.BlankF, c.ConstB, c.ShadowB = fc.blank, fc.blankFirst, fc.constBody, fc.shadowBody
-		c.Higher, c.HigherN, c.PkgBef = fc.higher, fc.higherName, fc.pkgBefore
+		c.Higher, c.HigherN, c.PkgBef, c.PkgArg = fc.higher, fc.higherName, fc.pkgBefore, fc.pkgArg
 		c.Outside = outsideModel
 		if !outsideModel {
 			c.Model = modelOf(c.SrcA)
